@@ -271,7 +271,8 @@ impl<F: Float, D: Distance<F>, N: NearestNeighbour> OpticsValidParams<F, D, N> {
     ) -> Vec<Sample<F>> {
         // Unwrap here is fine because we don't expect any dimension mismatch when calling
         // within_range with points from the observations
-        nn.within_range(candidate, self.tolerance())
+        let mut neighbors: Vec<Sample<F>> = nn
+            .within_range(candidate, self.tolerance())
             .unwrap()
             .into_iter()
             .map(|(pt, index)| Sample {
@@ -279,7 +280,14 @@ impl<F: Float, D: Distance<F>, N: NearestNeighbour> OpticsValidParams<F, D, N> {
                 reachability_distance: Some(self.dist_fn().distance(pt, candidate)),
                 core_distance: None,
             })
-            .collect()
+            .collect();
+        // the nearest neighbour indices return the points within range in no particular order
+        neighbors.sort_by(|a, b| {
+            a.reachability_distance
+                .partial_cmp(&b.reachability_distance)
+                .unwrap_or(Ordering::Equal)
+        });
+        neighbors
     }
 
     /// Set the core distance given the minimum points in a cluster and the points neighbors
